@@ -34,10 +34,10 @@ func init() {
 }
 
 type c06Gen struct {
-	r      *fw.RNG
-	nprobe int
-	skel   []string
-	raise  map[string]bool
+	r         *fw.RNG
+	nprobe    int
+	skel      []string
+	raise     map[string]bool
 	inHandler int
 }
 
